@@ -110,6 +110,7 @@ def jJobObs (j : Json) : Except String JobObs := do
   return { log := log, start := ← jNat (← field j "start"), ret := ← jNat (← field j "ret"),
            natEnd := ← jNat (← field j "natEnd"), deadline := ← jOptNat (fieldD j "deadline" Json.null),
            saw := ← jBool (← field j "saw"), pollsAgain := ← jBool (← field j "pollsAgain"),
+           loopRan := ← jBool (fieldD j "loopRan" true),
            tie := ← jBool (← field j "tie"), gathered := ← jBool (← field j "gathered"),
            valueKept := ← jBool (← field j "valueKept") }
 
